@@ -98,7 +98,7 @@ def normalize(raw, pinned=False):
     excluded = []
     for i, c in enumerate(rc):
         # names unique along the root->class path (siblings/cousins may share)
-        taken = {"id", "b0", "type", "code", "ref_id"}
+        taken = {"id", "b0", "type", "code", "ref_id", "dtwin"}
         for j in anc[i]:
             taken.update(classes[j]["cols"])
         if not concrete:
@@ -289,6 +289,9 @@ def _build(cfg) -> Built:
                 ns["b0"] = mapped_column(Integer)
                 if cfg["ref"]:
                     ns["ref_id"] = mapped_column(ForeignKey("ref.id"), nullable=True)
+                # a second base-table column carrying the polymorphic identity, *not* the mapper's polymorphic_on:
+                # candidate for with_polymorphic(..., polymorphic_on=<explicit column>)
+                ns["dtwin"] = mapped_column(disc_t, nullable=True)
                 if cfg["on"] == "expr":
                     code = mapped_column(disc_t)
                     ns["code"] = code
@@ -356,6 +359,7 @@ def attr_names(cfg, sh, i):
     names = ["id", "b0"]
     if cfg["kind"] != "concrete":
         names.append("code" if cfg["on"] == "expr" else "type")
+        names.append("dtwin")
         if cfg["ref"]:
             names.append("ref_id")
     for j in sh["path"][i]:
@@ -395,6 +399,7 @@ def insert_rows(conn, b: Built, rows, nrefs):
                 d[name] = vals[name]
         root = per_table[0]
         root["b0"] = row["b0"]
+        root["dtwin"] = ident(cfg, i)
         if cfg["on"] == "expr":
             root["code"] = rawcode(cfg, i)
         else:
